@@ -32,5 +32,8 @@ PROPS = {
     "C13": dict(module="MRB.Props.C13", level="translation_validation", profiles=[prof("all", 800), prof("own", 300)],
                 also_tags=["C01", "C04", "C05", "C06", "C07", "C08", "C09", "C11", "C12", "C18"],
                 gen_items=["concAcc", "localAcc", "adetGoBack", "adetAdvance", "adetSync"], trusted=SEQ_TRUST),
+    "C16": dict(module="MRB.Props.C16", level="proof", profiles=[], engines=["c16"], gen_items=["sendSync"],
+                trusted=["rustc's trait solver is the ground truth for Send/Sync; the auto-trait rule is modelled over the finite universe wrapper x role x buffer kind x (item Send?, item Sync?)"],
+                explanation="decide over the whole finite universe from the regenerated impl table + rustc probes"),
     "C18": dict(module="MRB.Props.C18", level="proof", profiles=[prof("construct", 500)], gen_items=[], trusted=SEQ_TRUST),
 }
